@@ -6,7 +6,7 @@ import re
 from .lib import reach, decision, guards, paths
 from .lib.mir import AnchorLost
 
-CONFIGS_QUICK = ["A"]
+CONFIGS_QUICK = ["A", "R"]
 CONFIGS_THOROUGH = ["A", "R"]
 TECHNIQUE = "intra-procedural taint (provenance of every value pushed to the output) over all serializer methods; separator literal tables of writer vs reader; support matrix of serialize_*/deserialize_*"
 LEVEL_TEXT = ('Decides clauses C09-a..f: in every method of the URL-encoded Serializer and of its compound serializers, whatever is appended to the output is a '
